@@ -10,6 +10,7 @@ OQ == {"sf", "mixed"}
 IAll == {"int", "intUnsorted", "str", "datetime", "multi"}
 IInt == {"int"}
 IRestQ == {"int", "str"}
+IQ17 == {"int", "multi"}    \* C17 quick: a user MultiIndex is the index whose labels the pipeline replaces by positions
 NAll == {"default", "sf", "userdim"}
 NQ == {"default", "userdim"}
 FlAll == {"none", "center", "std"}
